@@ -171,10 +171,10 @@ def one_roundtrip(rng):
 
 
 def units(tier):
-    return [BoundedUnit('parameters.call_sequences_vs_dictionary_model', one_sequence, 1500, 60000,
+    return [BoundedUnit('parameters.call_sequences_vs_dictionary_model', one_sequence, 8000, 100000,
                         'random sequences (length <= 30) of addpar/set/set_parameters/set_varylist/set_variable_values/update_other/'
                         'update_yourself/get*: after every call get_parameters() equals a plain dictionary model, varied values follow varylist order'),
-            BoundedUnit('parameters.save_load_roundtrip', one_roundtrip, 1500, 60000,
+            BoundedUnit('parameters.save_load_roundtrip', one_roundtrip, 5000, 100000,
                         'save then load through a real file: ints (incl. > 2^53), floats (bit-exact, incl. -0.0, denormals, 1e22), space-free strings; '
                         'numeric-looking strings become int/float; hyphens in names become underscores')]
 
